@@ -69,6 +69,24 @@ def synth_cases(args):
                 if not diff <= TOL:
                     comp = "XYZ"[int(np.argmax(np.abs(got - want)))]
                     t.fail("C14|%s|differs-from-synthesis|%s|%s" % (route, comp, cls), {"date": d, "place": (la, lo, h), "got": got, "want": want, "diff_nT": diff})
+        # one object answering a profile: the same site at several heights in a row, then the next site (same date)
+        w = WMM()
+        for (la, lo, h) in places:
+            cls = "pole" if abs(la) == 90 else ("equator" if la == 0 else ("lon180" if abs(lo) == 180 else "generic"))
+            for h2 in (h, h + 37.5, 0.25, h):
+                t.calls += 1
+                t.keys.add((tenths, la, lo, h2, "profile"))
+                want = np.array(WM.synthesize(la, lo, h2, tenths))
+                o = core.outcome(lambda: (w.magnetic_field(la, lo, h2, date=d), np.array([w.X, w.Y, w.Z], dtype=float))[1])
+                if o[0] != "ok":
+                    t.fail("C14|profile|raises-%s|%s" % (o[1], cls), {"date": d, "place": (la, lo, h2), "err": o[2]})
+                    w = WMM()
+                    continue
+                diff = float(np.max(np.abs(o[1] - want))) if np.all(np.isfinite(o[1])) else float("inf")
+                t.resid("synthesis-nT", diff)
+                if not diff <= TOL:
+                    t.fail("C14|profile|differs-from-synthesis|%s" % cls, {"date": d, "place": (la, lo, h2), "got": o[1], "want": want, "diff_nT": diff,
+                                                                          "note": "same object, previous query at the same latitude/longitude and another height"})
         if len(t.samples) < 1:
             t.samples.append({"date": d, "place": places[0], "synthesis_nT": list(WM.synthesize(*places[0], tenths))})
     return t
@@ -118,7 +136,7 @@ def run(chk):
     quick = chk.tier == "quick"
     chk.rule = ("(a) every grid date and the listed calendar days of 2015-2030 (TLC-emitted, ambiguity predicate applied) at 4 places; (b) degree-12 "
                 "synthesis at 14 places (both poles incl. 850 km, equator/prime meridian, +-180, heights -1..850 km) x dates incl. the epoch "
-                "boundaries 2019.9/2020.0/2024.9/2025.0/2030.0 x {method, constructor}; (c) the mirror against TLC's exact Legendre values; distinct = "
+                "boundaries 2019.9/2020.0/2024.9/2025.0/2030.0 x {method, constructor, height profile on one object}; (c) the mirror against TLC's exact Legendre values; distinct = "
                 "distinct (date, place, route); none trivial")
     chk.assume("mirror = fractions.Fraction transcription of the WmmSynth DEFINITION operators, checked against TLC on degree <= 6; trigonometry of the "
                "longitude, sqrt of the Schmidt factors and the WGS84 geodetic->geocentric conversion in floats; tolerance 1e-5 nT")
